@@ -20,6 +20,7 @@ const mambaMod = "github.com/Tom-Johnston/mamba"
 // Ctx is one loaded, type-checked and SSA-built program (the repository or the
 // positive-control module) plus lazily computed whole-program analyses.
 type Ctx struct {
+	immut map[*ssa.Global]bool
 	Dir     string
 	Mod     string // module path prefix of the code under analysis
 	Pkgs    []*packages.Package
@@ -337,4 +338,122 @@ func (c *Ctx) srcAt(pos token.Pos) string {
 		}
 	}
 	return ""
+}
+
+// immutableTable: g is a package-level slice or array of integers that the module only ever reads
+// element-wise (or measures with len): no function other than a package initialiser stores through
+// it, re-slices it, or hands it to a call.
+func (c *Ctx) immutableTable(g *ssa.Global) bool {
+	if c.immut == nil {
+		c.immut = map[*ssa.Global]bool{}
+		bad := map[*ssa.Global]bool{}
+		seen := map[*ssa.Global]bool{}
+		readOnlyUse := func(v ssa.Value) bool { // v is the table (slice header or array pointer)
+			refs := v.Referrers()
+			if refs == nil {
+				return false
+			}
+			for _, r := range *refs {
+				switch x := r.(type) {
+				case *ssa.IndexAddr:
+					if x.X != v {
+						return false
+					}
+					for _, r2 := range *x.Referrers() {
+						if u, ok := r2.(*ssa.UnOp); !ok || u.Op != token.MUL {
+							if _, isDbg := r2.(*ssa.DebugRef); !isDbg {
+								return false
+							}
+						}
+					}
+				case *ssa.Call:
+					if b, ok := x.Call.Value.(*ssa.Builtin); !ok || b.Name() != "len" {
+						return false
+					}
+				case *ssa.DebugRef:
+				default:
+					return false
+				}
+			}
+			return true
+		}
+		for _, fn := range c.Funcs {
+			isInit := fn.Name() == "init" && fn.Parent() == nil
+			for _, b := range fn.Blocks {
+				for _, in := range b.Instrs {
+					for _, op := range in.Operands(nil) {
+						g2, ok := (*op).(*ssa.Global)
+						if !ok {
+							continue
+						}
+						seen[g2] = true
+						if isInit {
+							continue
+						}
+						switch x := in.(type) {
+						case *ssa.UnOp:
+							if x.Op == token.MUL && x.X == ssa.Value(g2) {
+								if _, isSlice := x.Type().Underlying().(*types.Slice); isSlice && readOnlyUse(x) {
+									continue
+								}
+							}
+						case *ssa.IndexAddr:
+							if x.X == ssa.Value(g2) {
+								okUse := true
+								for _, r2 := range *x.Referrers() {
+									if u, ok := r2.(*ssa.UnOp); !ok || u.Op != token.MUL {
+										okUse = false
+									}
+								}
+								if okUse {
+									continue
+								}
+							}
+						}
+						bad[g2] = true
+					}
+				}
+			}
+		}
+		for g2 := range seen {
+			c.immut[g2] = !bad[g2]
+		}
+	}
+	return c.immut[g]
+}
+
+// tableLen: the length of a package-level slice as its initialiser builds it (a slice literal:
+// `*g = slice t[:]` of a fixed-size array allocated by the package initialiser).
+func (c *Ctx) tableLen(g *ssa.Global) (int64, bool) {
+	if g.Pkg == nil {
+		return 0, false
+	}
+	init := g.Pkg.Func("init")
+	if init == nil {
+		return 0, false
+	}
+	n, found := int64(0), 0
+	for _, b := range init.Blocks {
+		for _, in := range b.Instrs {
+			st, ok := in.(*ssa.Store)
+			if !ok || st.Addr != ssa.Value(g) {
+				continue
+			}
+			found++
+			sl, ok := st.Val.(*ssa.Slice)
+			if !ok || sl.Low != nil || sl.High != nil {
+				return 0, false
+			}
+			pt, ok := sl.X.Type().Underlying().(*types.Pointer)
+			if !ok {
+				return 0, false
+			}
+			arr, ok := pt.Elem().Underlying().(*types.Array)
+			if !ok {
+				return 0, false
+			}
+			n = arr.Len()
+		}
+	}
+	return n, found == 1
 }
